@@ -15,7 +15,7 @@ State of `Radio`
   frames            ghost: number of SPI frames so far
   ce_log            ghost: bit 1 set once PRIM_RX was changed by a CONFIG write while CE was high (C08)
 """
-from pyvc.specrt import ite, implies
+from pyvc.specrt import ite, implies, oracle_int
 
 # write masks per Table 28 (bits that exist and are writable)
 WMASK = (0x7F, 0x3F, 0x3F, 0x03, 0xFF, 0x7F, 0xBF, 0x70, 0x00, 0x00,
@@ -84,9 +84,75 @@ class Radio:
     def set_ce(self, val):
         self.ce = val
 
+    # ---------------------------------------------------------------- PTX engine (A-HW rule 3)
+    def env_step(self):
+        """what the radio may have done since the previous SPI frame (only when env_on).
+
+        A started transmission attempt resolves within `budget` further frames (A-HW-LIVE) to
+        TX_DS (payload popped, optional ACK payload received) or MAX_RT (payload kept), as an
+        oracle decides; it is forced to TX_DS when no acknowledgement is expected.  The step
+        never touches a configuration or address register, nor CE (frame axiom)."""
+        if not self.env_on:
+            return
+        if self.inflight:
+            wait = oracle_int(0, 1)
+            if wait == 1 and self.budget > 0:
+                self.budget = self.budget - 1
+                return
+            self._resolve()
+            return
+        startable = (self.ce and (self.reg[0] & 3) == 2 and self.tx_n > 0 and (self.reg[7] & 0x10) == 0
+                     and self.tx_ackpipe[0] < 0)
+        if startable:
+            self.inflight = True
+            self.att_n = self.att_n + 1
+            self.att_txn = self.tx_n
+            self.att_len = self.tx_len[0]
+            self.att_data = self.tx_data[0]
+            self.reg[8] = self.reg[8] & 0xF0      # ARC_CNT restarts with every new packet
+
+    def _resolve(self):
+        self.inflight = False
+        no_ack_expected = (self.reg[1] & 1) == 0 or (self.tx_noack[0] and (self.reg[0x1D] & 1) != 0)
+        lost = oracle_int(0, 1)
+        if lost == 1 and not no_ack_expected:
+            # every (re)transmission went unacknowledged
+            self.reg[7] = self.reg[7] | 0x10
+            self.reg[8] = (min(15, (self.reg[8] >> 4) + 1) << 4) | (self.reg[4] & 0x0F)
+            self.n_rt = self.n_rt + 1
+            return
+        self.reg[7] = self.reg[7] | 0x20
+        used = oracle_int(0, 15)
+        self.reg[8] = (self.reg[8] & 0xF0) | ite(no_ack_expected, 0, min(used, self.reg[4] & 0x0F))
+        self.n_ds = self.n_ds + 1
+        # payload leaves the TX FIFO
+        self.tx_len[0] = self.tx_len[1]
+        self.tx_data[0] = self.tx_data[1]
+        self.tx_noack[0] = self.tx_noack[1]
+        self.tx_ackpipe[0] = self.tx_ackpipe[1]
+        self.tx_len[1] = self.tx_len[2]
+        self.tx_data[1] = self.tx_data[2]
+        self.tx_noack[1] = self.tx_noack[2]
+        self.tx_ackpipe[1] = self.tx_ackpipe[2]
+        self.tx_n = self.tx_n - 1
+        # the peer may have attached an ACK payload (needs EN_ACK_PAY + EN_DPL and DPL on pipe 0)
+        ackpl_on = (self.reg[0x1D] & 6) == 6 and (self.reg[0x1C] & 1) != 0
+        if ackpl_on and not no_ack_expected and self.rx_n < 3:
+            got = oracle_int(0, 1)
+            if got == 1:
+                i = self.rx_n
+                ln = oracle_int(1, 32)
+                self.rx_pipe[i] = 0
+                self.rx_len[i] = ln
+                self.rx_data[i] = self.ackpl
+                self.rx_n = self.rx_n + 1
+                self.reg[7] = self.reg[7] | 0x40
+                self.ack_rx = self.ack_rx + 1
+
     def xfer(self, mosi):
         """one CSN frame: returns MISO (same length); STATUS is shifted out first"""
         n = len(mosi)
+        self.env_step()
         self.frames = self.frames + 1
         if n == 0:
             return bytes(0)
